@@ -122,7 +122,9 @@ def count_variable(values):
     return names[0]
 
 
-CATEGORY = {0: "Zero", 1: "One", 2: "Two", 3: "Few", 6: "Many"}     # the modelled plural rules (category_for builtin)
+# the modelled plural rules (category_for builtin): as in French 0 is `one`; the `zero` category exists but not for 0 (as in
+# Latvian, where 10 is `zero`) - a declared `_zero` form is chosen by the locale's rules, never by the count being 0
+CATEGORY = {0: "One", 1: "One", 2: "Two", 3: "Few", 6: "Many", 10: "Zero"}
 
 
 def subst(v, args):
@@ -245,7 +247,8 @@ def populate_universe():
     rng_multi = Rng("var_count", "I64", [(C("Multiple", L(Exact(7), Bounds(10, None))), Var("var_x")), (FALLBACK, Lit("other"))])
     plu = Plu("var_count", "Cardinal", [("One", Bloc(Lit("one "), Var("var_x"))), ("Few", Bloc(Var("var_count"), Lit(" few")))], Bloc(Var("var_count"), Lit(" other "), Var("var_x")))
     plu_ord = Plu("var_n", "Ordinal", [("Two", Var("var_x"))], Lit("th"))
-    vals = leafs + [("range", rng), ("range-without-fallback", rng_nofb), ("range-alternatives", rng_multi), ("plural", plu), ("plural-ordinal", plu_ord),
+    plu_zero = Plu("var_count", "Cardinal", [("Zero", Lit("zero form")), ("One", Bloc(Lit("one form "), Var("var_x")))], Bloc(Var("var_count"), Lit(" other form")))
+    vals = leafs + [("range", rng), ("range-without-fallback", rng_nofb), ("range-alternatives", rng_multi), ("plural", plu), ("plural-ordinal", plu_ord), ("plural-with-zero-form", plu_zero),
                     ("range-in-component", Comp("comp_b", rng)), ("plural-in-reference", FkSet(plu))]
     argsets = [
         ("no-args", L()),
@@ -253,7 +256,7 @@ def populate_universe():
         ("x,y", L(T(S("var_x"), X), T(S("var_y"), Y))),
         ("x=variable", L(T(S("var_x"), Var("var_w")))),
     ]
-    counts = [("count=0", Uns(0)), ("count=1", Uns(1)), ("count=3", Uns(3)), ("count=5", Uns(5)), ("count=7", Uns(7)), ("count=12", Uns(12)),
+    counts = [("count=0", Uns(0)), ("count=1", Uns(1)), ("count=3", Uns(3)), ("count=5", Uns(5)), ("count=7", Uns(7)), ("count=10", Uns(10)), ("count=12", Uns(12)),
               ("count=-2", Sig(-2)), ("count={{n}}", Var("var_n")), ("count= {{n}} ", Bloc(Lit(" "), Var("var_n"), Lit("  "))),
               ("count=text", Lit("many")), ("count=x{{n}}", Bloc(Lit("x"), Var("var_n"))), ("count={{n}}{{m}}", Bloc(Var("var_n"), Var("var_m")))]
     out = []
@@ -479,7 +482,55 @@ def check_args(ctx, r, rid="R0"):
     else:
         r.inst("ParsedValue::parse_foreign_key_args_inner", "%d arguments (plain text, text that looks like a number: leading zeros, sign, decimals, exponent; text with a variable; padded names; numbers, booleans): "
                "each is found under var_<trimmed name> with the supplied value itself (strings parsed as translation strings, other literals kept)" % len(lits))
+    check_args_extent(ctx, r, rid)
     return True
+
+
+def check_args_extent(ctx, r, rid="R0"):
+    """parse_foreign_key_args: which part of the text after `$t(path,` is the argument object - the balanced `{..}` (it may hold
+    `{{ var }}` and nested `$t(.., {..})` arguments), then optional white space and the closing `)`; the rest is ordinary text"""
+    fn = ctx.ast.fn(PV, "parse_foreign_key_args", impl_self="ParsedValue")
+    if fn is None:
+        r.missing("ParsedValue::parse_foreign_key_args")
+        return
+    texts = ['{"x": 1}) tail', '{"x": 1})', '{"x": "$t(b, {\\"y\\": 1})"}) rest', '{"x": "({{ z }})"})!', '{"x": "{{ z }}"})', '{"a": {"b": {}}}  ) x', '{}){"k": 1})', '{"x": "}) {"}) y'[:0] or '{"x": 2}\t) y',
+             '{"x": 1} tail', '{"x": 1', '}', '{"x": 1}', '{"x": {"y": 1})', "{\u00e9})\u00e9"]
+
+    def ref(t):
+        depth = 0
+        for i, c in enumerate(t):
+            if c == "{":
+                depth += 1
+            elif c == "}":
+                if depth == 0:
+                    return None
+                depth -= 1
+                if depth == 0:
+                    rest = t[i + 1:].lstrip()
+                    return (t[:i + 1], rest[1:]) if rest.startswith(")") else None
+        return None
+    n = 0
+    bad = None
+    for t in texts:
+        ev = AEval(funcs={})
+        ev.path_builtins = {"Self::parse_foreign_key_args_inner": lambda a: C("Ok", C("ArgsOf", a[0])), "parse_foreign_key_args_inner": lambda a: C("Ok", C("ArgsOf", a[0]))}
+        ev.builtins["parse_foreign_key_args_inner"] = lambda rv, a: C("Ok", C("ArgsOf", rv))
+        got = ev.run_fn(fn, [S(t), A("key_path"), A("locale"), A("fkp")])
+        if isinstance(got, str):
+            raise Unknown("parse_foreign_key_args on %r: %s" % (t, got))
+        n += 1
+        w = ref(t)
+        if w is None:
+            ok = got[0] == "ctor" and got[1] == "Err"
+        else:
+            ok = got == C("Ok", T(C("ArgsOf", S(w[0])), S(w[1])))
+        if not ok and bad is None:
+            bad = "after `$t(key,` the text `%s` is read as %s; the argument object is %s" % (t, absint.fmt(got)[:160], ("`%s`, followed by `%s`" % w) if w else "malformed (rejected)")
+    if bad:
+        r.viol("%s:parse_foreign_key_args#extent" % rid, bad, file=fn.file, line=fn.line)
+    else:
+        r.inst("ParsedValue::parse_foreign_key_args", "%d texts (nested `$t(.., {..})` arguments, `{{ var }}` followed by `)`, nested objects, white space before `)`, non-ASCII, unbalanced / unterminated): "
+               "the balanced object is the arguments, what follows the `)` is ordinary text, anything else is rejected" % n)
 
 
 def check_traversal(ctx, r, rid="R0"):
@@ -545,3 +596,77 @@ def check_traversal(ctx, r, rid="R0"):
     if not bad:
         r.inst("ParsedValue::resolve_foreign_key", "%d values: every reference below a bloc / component / range branch (integer and float) / plural form and `other`, nested to depth 4, is resolved exactly once; a busy cell is a cycle error" % n)
     return True
+
+
+# ---------------------------------------------------------------------------------------------- lookups
+PL_ = "leptos_i18n_parser/src/parse_locales/locale.rs"
+
+
+def _loc(name, keys):
+    return CF("Locale", name=K(name), top_locale_name=K(name), keys=L(*[T(K(k), v) for k, v in keys]), strings=L(), top_locale_string_count=I(0))
+
+
+def _sub(name, keys):
+    return C("Subkeys", C("Some", _loc(name, keys)))
+
+
+def check_lookup(ctx, r, rid="R6"):
+    """LocalesOrNamespaces::get_value_at and Locale::get_value_at evaluated on a small project: groups nested three deep whose
+    inner names repeat at the root, two locales with different values, with and without namespaces.  The referenced key is the
+    one the path spells - segment by segment from the root of the right locale (and namespace) - or nothing."""
+    ast = ctx.ast
+    outer = ast.fn(PL_, "get_value_at", impl_self="LocalesOrNamespaces")
+    inner = ast.fn(PL_, "get_value_at", impl_self="Locale")
+    if outer is None or inner is None:
+        r.missing("get_value_at")
+        return
+    absint.set_program(ast)
+
+    def tree(tag):
+        deep = Lit("deep " + tag)
+        return [("a", _sub("a", [("b", _sub("b", [("c", deep), ("d", _sub("d", [("e", Lit("e " + tag))]))])), ("x", Lit("a.x " + tag))])),
+                ("b", _sub("b", [("c", Lit("root b.c " + tag))])), ("c", Lit("root c " + tag)), ("r", Lit("r " + tag))]
+
+    def ref(keys, path):
+        cur = dict(keys)
+        v = None
+        for i, seg in enumerate(path):
+            if seg not in cur:
+                return None
+            v = cur[seg]
+            if i + 1 < len(path):
+                if not (v[1] == "Subkeys" and v[2][0][1] == "Some"):
+                    return None
+                cur = {absint.fields_of(k)["name"][1]: x for k, x in [(t[1][0], t[1][1]) for t in absint.fields_of(v[2][0][2][0])["keys"][1]]}
+        return v
+    paths = [["a", "b", "c"], ["b", "c"], ["c"], ["a", "x"], ["r"], ["a", "b"], ["a", "c"], ["r", "c"], ["a", "b", "c", "d"], ["a", "b", "d", "e"], [], ["q"], ["q", "c"], ["a", "q", "c"]]
+    worlds = [("one file per locale", C("Locales", L(_loc("en", tree("en")), _loc("fr", tree("fr")))), None),
+              ("namespaces", C("NameSpaces", L(CF("Namespace", key=K("home"), locales=L(_loc("en", tree("home en")), _loc("fr", tree("home fr")))),
+                                               CF("Namespace", key=K("other"), locales=L(_loc("en", tree("other en")), _loc("fr", tree("other fr")))))), ("home", "other"))]
+    n = 0
+    bad = None
+    for wl, world, nss in worlds:
+        for ns in (None, "home", "other", "nope"):
+            for lc in ("en", "fr", "de"):
+                for p in paths:
+                    kp = CF("KeyPath", namespace=C("Some", K(ns)) if ns else C("None"), path=L(*[K(s) for s in p]))
+                    ev = AEval(funcs={})
+                    try:
+                        got = ev.run_fn(outer, [world, K(lc), kp])
+                    except Unknown as u:
+                        got = "UNKNOWN: %s" % u
+                    if isinstance(got, str):
+                        raise Unknown("%s (get_value_at %s, %s, %s, %s)" % (got, wl, ns, lc, ".".join(p)))
+                    n += 1
+                    if (nss is None) != (ns is None) or (nss and ns not in nss) or lc == "de":
+                        want = None
+                    else:
+                        want = ref(tree(("%s %s" % (ns, lc)) if ns else lc), p)
+                    wantv = C("None") if want is None else C("Some", want)
+                    if got != wantv and bad is None:
+                        bad = "%s, locale %s, reference `%s%s`: the lookup gives %s, the path spells %s" % (wl, lc, (ns + ":") if ns else "", ".".join(p) or "(empty)", absint.fmt(got)[:120], absint.fmt(wantv)[:120])
+    if bad:
+        r.viol("%s:get_value_at#path" % rid, bad, file=PL_, line=inner.line)
+    else:
+        r.inst("get_value_at", "%d lookups (2 project layouts x namespace none / right / other / unknown x 3 locales x 14 paths up to 4 segments, inner names repeated at the root): "
+               "the value at exactly that path in that locale and namespace, else nothing" % n)
